@@ -440,3 +440,6 @@ func (tr *Tor) EventQueueLen() int { return len(tr.T.Event) }
 func Addr(i int) netip.AddrPort {
 	return netip.AddrPortFrom(netip.AddrFrom4([4]byte{8, 8, byte(1 + i/250), byte(1 + i%250)}), uint16(6881+i%100))
 }
+
+// CancelContext cancels the context the torrents were started with (the other way a loop stops).
+func (sw *Swarm) CancelContext() { sw.stop() }
